@@ -828,6 +828,29 @@ fn enumerate_base(seed: u64, run: u64, base: &[u8], exhaustive_bits: bool, rng: 
     stats.violations.extend(found);
     SimClock::uninstall();
     SimFs::uninstall();
+    // F12 zone swap: not damage - the intact file is replaced by a sibling (same transition
+    // instants, re-indexed or smaller type table; or one footer component changed) and back, with
+    // the whole lookup battery after each step. Whatever the reader remembers must not cross files.
+    if let Ok(z) = tzref::parse_tzif(base) {
+        for _ in 0..4 {
+            if let Some(sib) = tzsim::sibling_of(&z, rng) {
+                let mut ops: Vec<Op> = instants.iter().map(|t| Op::LookupDirect { t: *t }).collect();
+                ops.push(Op::Replace(sib));
+                ops.extend(instants.iter().map(|t| Op::LookupDirect { t: *t }));
+                ops.push(Op::LookupLocal { secs: 1_700_000_000, nanos: 0, what: 0 });
+                ops.push(Op::Replace(base.to_vec()));
+                ops.extend(instants.iter().map(|t| Op::LookupDirect { t: *t }));
+                let sc = Scenario { base: Some(base.to_vec()), ops };
+                n += 1;
+                stats.inc("c19.fault.zone_swap_to_sibling.injected");
+                if let Err(f) = execute(&sc, &mut None) {
+                    stats.inc("c19.outcome.violation_scenarios");
+                    stats.violations.push(to_violation(seed, run, "F12-zone-swap", &sc, &f));
+                    break;
+                }
+            }
+        }
+    }
     n
 }
 
